@@ -1410,6 +1410,25 @@ impl PatternFusion for RepeatInterleaveFusion {
             return Err(FusionError::NoEffect);
         };
 
+        // The new axis must be inserted directly after the repeated axis, so
+        // that merging the two axes interleaves the repeated elements. If it is
+        // inserted before the repeated axis, the pattern tiles the axis instead.
+        let axes_id = pat_match.node_id("axes").ok_or(FusionError::NoMatch)?;
+        let Some(&[new_axis]) = graph.get_vector::<i32>(axes_id) else {
+            return Err(FusionError::CheckFailed("expected one Unsqueeze axis"));
+        };
+        let unsqueezed_rank = in_shape.len() as i32 + 1;
+        let new_axis = if new_axis < 0 {
+            new_axis + unsqueezed_rank
+        } else {
+            new_axis
+        };
+        if new_axis != axis as i32 + 1 {
+            return Err(FusionError::CheckFailed(
+                "new axis does not follow repeated axis",
+            ));
+        }
+
         Ok(RepeatInterleave { axis, repeats })
     }
 }
